@@ -542,26 +542,29 @@ Vocabulary (definitions in `Rooc/Proofs/LinBridge.lean`, `LinBridgeCounter.lean`
   normalisation runs out of fuel.
 * `IntRangesInBox an d` — for every `IntegerRange` variable with box `[l, u]` in `an` whose tolerant rounding
   `[⌈l − tol⌉, ⌊u + tol⌋]` is non-empty, both rounded ends lie in `[l, u]`.  Decidable on the computed state.
-  It is what the integer rounding of `apply_to_domain` can break (`c01_int_tolerance_counterexample`); it holds
-  trivially when no `IntegerRange` variable is declared (`NoIntegerVars`). -/
+  It is what the integer rounding of `apply_to_domain` could break before fix b9d407a (`c01_int_tolerance_counterexample`);
+  for the analyzer the pipeline computes it is now a theorem (`Rooc.LinP.enforceable_int_ranges_in_box`, `0 ≤ t < 1`), and it
+  holds trivially when no `IntegerRange` variable is declared (`NoIntegerVars`). -/
 
 section Bridge
 variable [FloorRing K]
 open Rooc.BoundsProofs
 
-/-- **C01 for the whole pipeline, piecewise-linear models**, every tolerance `t ≥ 0`, every step limit:
+/-- **C01 for the whole pipeline, piecewise-linear models**, every tolerance `0 ≤ t < 1`, every step limit:
 an assignment is source-feasible iff it extends, on the compiler's auxiliaries only, to a feasible point of the
-linear model that `Compile.linearize` returns.  No hypothesis about the bounds map or the published domain is
-left; `_partial`: the fragment (`FragModel`, as in `c01_partial`) and `IntRangesInBox` on the computed analyzer
-state (see `c01_int_tolerance_counterexample` for why). -/
+linear model that `Compile.linearize` returns.  No hypothesis about the bounds map, the published domain or the
+computed analyzer state is left: since fix b9d407a `enforceable` stores the rounded integer ranges, so
+`IntRangesInBox` holds for what the pipeline computes (`Rooc.LinP.enforceable_int_ranges_in_box`; `t < 1` is what
+keeps a rounded integer range inside the declared one — `DEFAULT_TOLERANCE = 1e-9`).  `_partial`: the fragment
+(`FragModel`, as in `c01_partial`).  `c01_int_tolerance_counterexample` shows what the unrounded box allowed. -/
 theorem c01_compile_partial {m : Model (Ext K)} {t : K} (ht : 0 ≤ t) {maxSteps : Nat} {lm : LinModel (Ext K)}
     (h : Compile.linearize m (.fin t) maxSteps = .ok lm)
     (hm : FragModel true m m.domain) (hok : DeclOK m.domain)
-    (hint : ∀ an, pipelineAnalyzer m (.fin t) maxSteps = some an → IntRangesInBox an m.domain)
+    (ht1 : t < 1)
     (ρ : String → K) :
     srcFeasible m ρ = true ↔
       ∃ ρ' : String → K, (∀ x, inScope m.domain x → ρ' x = ρ x) ∧ linFeasible lm ρ' = true :=
-  compile_feasible_iff ht h hm hok hint ρ
+  compile_feasible_iff ht h hm hok (Or.inl ht1) ρ
 
 /-- the same without any hypothesis on computed data, for models that declare no `IntegerRange` variable
 (Boolean, `Real`, `NonNegativeReal` only): every tolerance `t ≥ 0`, every step limit. -/
@@ -571,16 +574,16 @@ theorem c01_compile_noint_partial {m : Model (Ext K)} {t : K} (ht : 0 ≤ t) {ma
     (ρ : String → K) :
     srcFeasible m ρ = true ↔
       ∃ ρ' : String → K, (∀ x, inScope m.domain x → ρ' x = ρ x) ∧ linFeasible lm ρ' = true :=
-  compile_feasible_iff ht h hm hok (fun an _ => intRangesInBox_of_noInt hni an) ρ
+  compile_feasible_iff ht h hm hok (Or.inr hni) ρ
 
 /-- what the bridge discharges, stated on its own: for the analyzer state the pipeline computes, the published
 domain and the bounds map satisfy both side conditions of `c01_partial`. -/
 theorem compile_side_conditions {m : Model (Ext K)} {t : K} (ht : 0 ≤ t) (maxSteps : Nat)
     (hm : FragModel true m m.domain) (hok : DeclOK m.domain) {an : Analyzer (Ext K)}
-    (han : pipelineAnalyzer m (.fin t) maxSteps = some an) (hint : IntRangesInBox an m.domain) :
+    (han : pipelineAnalyzer m (.fin t) maxSteps = some an) (ht1 : t < 1 ∨ NoIntegerVars m.domain) :
     DomRel m (an.applyToDomain m.domain) ∧
     BoxEnforced (Compile.toLinBounds an.variableBounds) (an.applyToDomain m.domain) :=
-  pipeline_hyps ht maxSteps hm hok han hint
+  pipeline_hyps ht maxSteps hm hok han ht1
 
 /-- non-vacuity, every tolerance and every step limit: `min x s.t. x ≤ y` goes through the pipeline and satisfies
 every hypothesis of `c01_compile_noint_partial` (hence of `c01_compile_partial`). -/
